@@ -1,0 +1,65 @@
+//go:build verif
+
+// Machine-checked contracts for package router_identity (comment-only file;
+// never compiled into the library).  Read by /verif/engine (gvc).
+
+package router_identity
+
+//@ import "github.com/go-i2p/common/keys_and_cert"
+//@ import "github.com/go-i2p/common/key_certificate"
+//@ import "github.com/go-i2p/common/certificate"
+//@ import "github.com/go-i2p/common/destination"
+
+// The specification's restriction for RouterIdentities: as for Destinations,
+// and additionally no RedDSA (11).
+//@ spec func PermittedRI(sig int, crypto int) bool { return destination.PermittedDest(sig, crypto) && sig != 11 }
+
+//@ spec func RISig(ri *RouterIdentity) int { return key_certificate.SigType(ri.KeysAndCert.KeyCertificate) }
+//@ spec func RICrypto(ri *RouterIdentity) int { return key_certificate.CryptoType(ri.KeysAndCert.KeyCertificate) }
+
+//@ spec func RIInv(ri *RouterIdentity) bool { return ri != nil && keys_and_cert.KacInv(ri.KeysAndCert) && PermittedRI(RISig(ri), RICrypto(ri)) }
+
+//@ contract ReadRouterIdentity(data []byte) (ri *RouterIdentity, remainder []byte, err error)
+//@   ensures @C08 fresh(ri.KeysAndCert.Padding) && fresh(ri.KeysAndCert.KeyCertificate.SpkType) && fresh(ri.KeysAndCert.KeyCertificate.CpkType) && fresh(certificate.CertPayload(&ri.KeysAndCert.KeyCertificate.Certificate)) && fresh(certificate.CertKind(&ri.KeysAndCert.KeyCertificate.Certificate)) && fresh(certificate.CertLenBytes(&ri.KeysAndCert.KeyCertificate.Certificate))
+//@   ensures @C08 fresh(ri.KeysAndCert.ReceivingPublic.Bytes()) && fresh(ri.KeysAndCert.SigningPublic.Bytes())
+//@   ensures @C01 @C03 @C09 (err == nil) == (keys_and_cert.KacAccepts(data) && PermittedRI(keys_and_cert.WireSigType(data), keys_and_cert.WireCryptoType(data)))
+//@   ensures @C03 err == nil ==> suffix(remainder, data, keys_and_cert.KacExtent(data))
+//@   ensures @C09 @C01 err == nil ==> RIInv(ri)
+//@   ensures @C01 err == nil ==> seqeq(keys_and_cert.KacWire(ri.KeysAndCert), data[:keys_and_cert.KacExtent(data)])
+//@   ensures @C09 err == nil ==> RISig(ri) == keys_and_cert.WireSigType(data) && RICrypto(ri) == keys_and_cert.WireCryptoType(data)
+//@   ensures err != nil ==> ri == nil
+//@   modifies nothing
+
+//@ contract NewRouterIdentityFromBytes(data []byte) (ri *RouterIdentity, remainder []byte, err error)
+//@   ensures @C19 @C09 (err == nil) == (keys_and_cert.KacAccepts(data) && PermittedRI(keys_and_cert.WireSigType(data), keys_and_cert.WireCryptoType(data)))
+//@   ensures @C19 err == nil ==> suffix(remainder, data, keys_and_cert.KacExtent(data))
+//@   ensures @C19 @C09 err == nil ==> RIInv(ri) && seqeq(keys_and_cert.KacWire(ri.KeysAndCert), data[:keys_and_cert.KacExtent(data)])
+//@   ensures err != nil ==> ri == nil
+//@   modifies nothing
+
+//@ contract NewRouterIdentityFromKeysAndCert(keysAndCert *keys_and_cert.KeysAndCert) (ri *RouterIdentity, err error)
+//@   requires keysAndCert == nil || keys_and_cert.KacInv(keysAndCert)
+//@   ensures @C09 (err == nil) == (keysAndCert != nil && PermittedRI(key_certificate.SigType(keysAndCert.KeyCertificate), key_certificate.CryptoType(keysAndCert.KeyCertificate)))
+//@   ensures @C09 err == nil ==> ri != nil && ri.KeysAndCert == keysAndCert
+//@   ensures err != nil ==> ri == nil
+//@   modifies nothing
+
+//@ contract (ri *RouterIdentity) AsDestination() (d destination.Destination)
+//@   requires ri == nil || ri.KeysAndCert == nil || RIInv(ri)
+//@   ensures @C09 ri != nil && ri.KeysAndCert != nil ==> destination.DestInv(d)
+//@   ensures ri == nil || ri.KeysAndCert == nil ==> d.KeysAndCert == nil
+//@   modifies nothing
+
+//@ lemma C01_ReadRouterIdentity(data []byte) {
+//@   ri, rem, err := ReadRouterIdentity(data)
+//@   if err == nil {
+//@     b, e := ri.KeysAndCert.Bytes()
+//@     assert(e == nil && seqeq(b, data[:len(data)-len(rem)]))
+//@   }
+//@ }
+
+//@ lemma C09_RIPolicyNotTooStrict(data []byte) {
+//@   _, _, e1 := keys_and_cert.ReadKeysAndCert(data)
+//@   _, _, e2 := ReadRouterIdentity(data)
+//@   assert(e1 == nil && PermittedRI(keys_and_cert.WireSigType(data), keys_and_cert.WireCryptoType(data)) ==> e2 == nil)
+//@ }
